@@ -251,6 +251,26 @@ def run(ctx):
                                         ctx.violation("integer-ndarray-operand:magnitude:%s" % sym, dict(case_, got=got, want=want, result=repr(res)[:160]), replay=case_)
                                 except Exception as e:
                                     ctx.violation("integer-ndarray-operand:raised:%s" % sym, dict(case_, error="%s: %s" % (type(e).__name__, str(e)[:160])), replay=case_)
+        # lists and tuples of Python ints whose products leave the range of a machine integer (4e9 Pa x 5e9 m3): Python ints are
+        # exact - the product, and what it gives back when divided again, are the exact integers
+        if ctx.shard == 0:
+            from barril.units import Array as _ArrI, FixedArray as _FaI
+
+            big_a, big_b = [4000000000, -3000000000, 7], [5000000000, 6000000000, 2**62]
+            for u, v in (("Pa", "m3"), ("m", "m"), ("kg", "s")):
+                for kind, mk in (("list", list), ("tuple", tuple)):
+                    for cname, ctor in (("Array", lambda z, w: _ArrI(mk(z), w)), ("FixedArray", lambda z, w: _FaI(3, mk(z), w))):
+                        a_, b_ = ctor(big_a, u), ctor(big_b, v)
+                        for ename, fn, want in (("a*b", lambda: a_ * b_, [x * y for x, y in zip(big_a, big_b)]), ("(a*b)*a", lambda: (a_ * b_) * a_, [x * y * x for x, y in zip(big_a, big_b)]), ("b*a", lambda: b_ * a_, [x * y for x, y in zip(big_a, big_b)])):
+                            ctx.ev()
+                            ctx.nt(("huge python ints", cname, kind, ename, u, v))
+                            case_ = {"expression": ename, "class": cname, "container": kind, "units": [u, v], "a": big_a, "b": big_b}
+                            try:
+                                got = list(fn().GetValues())
+                                if len(got) != len(want) or not all(abs(float(g) - float(w)) <= 1e-9 * abs(float(w)) for g, w in zip(got, want)):
+                                    ctx.violation("huge-python-ints:magnitude:%s" % ename, dict(case_, got=[repr(g) for g in got], want=[repr(w) for w in want]), replay=case_)
+                            except Exception as e:
+                                ctx.violation("huge-python-ints:raised:%s" % ename, dict(case_, error="%s: %s" % (type(e).__name__, str(e)[:160])), replay=case_)
         # operands of different kinds meeting in one product: a numpy-backed amount with a list- or tuple-backed one that carries
         # its unit at an exponent other than 1 (cm2, 1/min2); an application subclass of Scalar on the left of a plain Scalar
         if ctx.shard == 0:
